@@ -20,8 +20,15 @@
           a discarded transaction costs nothing.
      C11  votes[c] = deposit votes + current voters' balance votes for registered candidates, else 0, never negative
           - at the end of EVERY block, reward blocks (reward issue, refunds, then the vote pass) included.
-     C12  equity / supply move only as issuer issue / replenish, holder transfer / destroy of an owned non-negative
-          amount while not frozen; supply = sum of equities; nothing negative.
+     C12  per asset code and asset id (all three categories; the reset event names every code's category, flags and
+          issuer; the state carries supply / freeze per code, every holder's equity per id - only non-zero ones are
+          logged - and the code recorded with each id): equity / supply move only as issuer issue / replenish, holder
+          transfer / destroy of an owned non-negative amount while the code is not frozen (an indivisible id as a
+          whole); a contract that self-destructs keeps what it holds; supply = sum of equities (indivisible: number
+          of ids still held); nothing negative.
+   The header of a block may name a small gas limit (event GasLimit; logged with every block as bgl): a candidate that
+   does not fit is neither packaged nor discarded by the miner - for the monitor it is simply not packaged and must
+   have cost nothing.
    Check selects the clauses of the property under test.  Known defects are accepted only when listed (AllowedDev),
    only where the correct clause fails, and only if the logged state is exactly what the deviation predicts. *)
 EXTENDS TraceBase, LedgerOps
@@ -37,6 +44,8 @@ GasOK(q, i) == IF i > Len(q) THEN TRUE
 RECURSIVE GasSum(_, _)
 GasSum(q, i) == IF i > Len(q) THEN 0 ELSE (IF q[i].inc THEN q[i].gu ELSE 0) + GasSum(q, i + 1)
 
+\* equity is logged sparsely (holders with a non-zero equity under an id)
+Norm(s) == [s EXCEPT !.eq = [i \in DOMAIN s.eq |-> [a \in DOMAIN s.bal |-> IF a \in DOMAIN s.eq[i] THEN s.eq[i][a] ELSE 0]]]
 X(e, dv) == Block(c, dv, cur, e.txs)    \* every block of a behaviour is mined on the committed parent, whose state is cur
 Has(k) == k \in AllowedDev
 
@@ -62,7 +71,8 @@ C11Dev(e) == LET k == "Dev_VoteUsesPreTxBalance" IN
                                        e.post.bal = x.s.bal /\ e.post.votes = x.s.votes /\ y.s.votes # x.s.votes) = TRUE
              /\ UseDev(k)
 (* ---------------------------------------------------------------- C12 *)
-C12With(e, x) == /\ e.post.eq = x.s.eq /\ e.post.sup = x.s.sup /\ e.post.frz = x.s.frz /\ ~x.bad /\ SupplyOK(e.post)
+C12With(e, x) == LET p == Norm(e.post) IN
+                 /\ p.eq = x.s.eq /\ p.sup = x.s.sup /\ p.frz = x.s.frz /\ p.idc = x.s.idc /\ ~x.bad /\ SupplyOK(c, p)
 C12OK(e) == C12With(e, X(e, {}))
 C12Dev(e) == LET k == "Dev_NegativeAssetTransfer" IN Has(k) /\ ~C12OK(e) /\ C12With(e, X(e, {k})) /\ UseDev(k)
 
@@ -75,9 +85,9 @@ TReset == /\ Ev("reset") /\ E.inexact = <<>>
           /\ c' = [V |-> E.V, D |-> E.D, mindep |-> E.mindep, income |-> E.income, pool |-> E.pool, zero |-> E.zero,
                    issuer |-> E.issuer, rev |-> ToSet(E.rev), sink |-> ToSet(E.sink), burn |-> ToSet(E.burn), back |-> ToSet(E.back),
                    deps |-> [k \in 1..Len(E.deps) |-> ToSet(E.deps[k])], payees |-> E.payees,
-                   prec |-> E.prec, rm |-> E.rm, rc |-> E.rc, rpool |-> E.rpool]
-          /\ cur' = E.st /\ split' = FALSE
-          /\ NonNegBal(E.st) /\ VotesOK(c', E.st) /\ SupplyOK(E.st)
+                   prec |-> E.prec, rm |-> E.rm, rc |-> E.rc, rpool |-> E.rpool, assets |-> E.assets]
+          /\ cur' = Norm(E.st) /\ split' = FALSE
+          /\ NonNegBal(E.st) /\ VotesOK(c', E.st) /\ SupplyOK(c', cur')
 TxEvents == {"Transfer", "Vote", "Register", "TopUp", "Unregister", "SetReward", "Issue", "Replenish", "AssetTransfer", "Freeze", "Box"}
 TTx == /\ \E n \in TxEvents : Ev(n)
        /\ Judge(E) /\ UNCHANGED <<c, cur, split>>
@@ -90,7 +100,7 @@ TEnd == /\ Ev("EndBlock")
            \/ /\ ~E.vok /\ split /\ split' = split              \* its parent was refused before
            \/ /\ ~E.vok /\ ~split /\ Check = "C12" /\ Has("Dev_NegativeAssetTransferSplitsMinerValidator") /\ NegDiscarded(E.txs)
               /\ UseDev("Dev_NegativeAssetTransferSplitsMinerValidator") /\ split' = TRUE
-        /\ Judge(E) /\ cur' = E.post /\ UNCHANGED c
+        /\ Judge(E) /\ cur' = Norm(E.post) /\ UNCHANGED c
 \* Known defect, second face: a negative transferAmount to an account that does not hold the asset yet makes the
 \* processor PANIC while mining (the negative equity cannot be RLP-encoded, the revert then trips over the first-equity
 \* change log).  TraceBase.Ev never consumes a panic line; this action does, only for exactly that input and only if listed.
@@ -102,6 +112,8 @@ TNegPanic == /\ l <= Len(Trace) /\ Trace[l].ev = "AssetTransfer" /\ "panic" \in 
 TRevPanic == /\ l <= Len(Trace) /\ Trace[l].ev = "AssetTransfer" /\ "panic" \in DOMAIN Trace[l] /\ l' = l + 1
              /\ Check = "C12" /\ Has("Dev_AssetToFailingContractPanics") /\ Trace[l].a[2] \in c.rev /\ Trace[l].a[3] >= 0
              /\ UseDev("Dev_AssetToFailingContractPanics") /\ UNCHANGED <<c, cur, split>>
-TraceNext == TReset \/ TTx \/ TEnd \/ TNegPanic \/ TRevPanic
+\* the header of the block under construction names a gas limit: nothing is mined yet
+TGas == Ev("GasLimit") /\ UNCHANGED <<c, cur, split>>
+TraceNext == TReset \/ TTx \/ TGas \/ TEnd \/ TNegPanic \/ TRevPanic
 TraceSpec == l = 1 /\ c = <<>> /\ cur = <<>> /\ split = FALSE /\ [][TraceNext]_mvars
 ====
